@@ -584,7 +584,7 @@ class PFITSFile:
         elif self.sub_hdr.poln_state == "Stokes":
             data = sdata[:, 0, :]
         elif self.sub_hdr.poln_state == "Intensity":
-            data = sdata[:, 0, :].squeeze()
+            data = sdata[:, 0, :]
 
         return data
 
@@ -613,7 +613,10 @@ class PFITSFile:
             otherwise in ``uint8`` with shape ``(nsamps, npol, nchan)``.
         """
         sdata = self._fits["SUBINT"].data[isub]["DATA"]
-        sdata = sdata.squeeze()
+        # Only the NBIN axis is redundant in search mode: NSBLK, NPOL or NCHAN may
+        # themselves be 1 (e.g. total-intensity files) and must be kept.
+        if sdata.ndim == 4 and sdata.shape[3] == 1:
+            sdata = sdata.reshape(sdata.shape[:3])
         if self.bitsinfo.unpack:
             data = unpack(sdata.ravel(), self.bitsinfo.nbits)
             data = data.reshape(
